@@ -261,10 +261,7 @@ func SplitRaceReports(txt string) []RaceReport {
 				continue
 			}
 			if inStack && (strings.HasPrefix(t, "github.com/KevoDB/kevo/") || strings.HasPrefix(t, "verif/")) {
-				fn := t
-				if j := strings.Index(fn, "("); j > 0 {
-					fn = fn[:j]
-				}
+				fn := strings.TrimSuffix(t, "()")
 				fn = strings.TrimPrefix(fn, "github.com/KevoDB/kevo/")
 				tops = append(tops, fn)
 				inStack = false
@@ -406,7 +403,8 @@ func Orchestrate(m *Monitor, o Options, bin string, scratch string) *Aggregate {
 					f.Close()
 				}
 				os.Remove(out)
-				if finished && err == nil {
+				if finished {
+					// (a -race binary exits with 66 when it reported races; they were attributed per case)
 					os.Remove(errf)
 					return
 				}
